@@ -98,10 +98,28 @@ def damage(rng, m):
     return m[:a] + m[b:] + m[a:b]
 
 
+PAYLOADS = ["<script>alert(1)</script>", "<img src=x onerror=alert(1)>", "<iframe src=x></iframe>", '<b onclick="x()">y</b>', "<style>*{color:red}</style>", "<svg onload=alert(1)>",
+            '<a href="javascript:alert(1)">j</a>', "<object data=x></object>"]
+WRAPPERS = ["<!--%s-->", "<!--%s--!>", "<!-%s->", "<!%s>", "<!DOCTYPE %s>", "<!ENTITY %s>", "<!ATTLIST %s>", "<?%s?>", "<?%s>", "<?xml %s?>", "<![if %s]>", "<![if gte mso 9%s]>", "<![endif%s]>",
+            "<![else%s]>", "<![cdata[%s]]>", "<![CDATA[%s]]>", "<![include[%s]]>", "<![ignore[%s]]>", "<![temp[%s]]>", "<![rcdata[%s]]>", "<![%s]>", "<![ %s ]]>", "<![if !IE]>%s<![endif]>",
+            "<!--[if IE]>%s<![endif]-->", "<!%s", "<![if %s", "<?%s", "<!--%s", "<![cdata[%s", "</%s>", "<%s"]
+
+
+def gen_smuggle(rng):
+    """markup inside every kind of non-element construct (comment, declaration, marked section with each keyword _markupbase knows, processing
+    instruction; terminated, mis-terminated, unterminated), optionally preceded by something that ends the construct early for an HTML5 tokenizer"""
+    pay = rng.choice(PAYLOADS) if rng.random() < 0.75 else gen_tree(rng, 2)
+    pre = rng.choice(["", "", ">", " >", "x>", "-->", "->", "]>", "]]>", "?>", '">', "'>", "\n>", "!>"])
+    m = rng.choice(WRAPPERS) % (pre + pay)
+    return rng.choice(["", "Hello ", "<p>", "<svg>", "<b>x</b>"]) + m + rng.choice(["", " tail", "</p>", "<i>after</i>"])
+
+
 def gen_markup(rng):
     r = rng.random()
     if r < 0.15:
         m = rng.choice(SEEDS)
+    elif r < 0.3:
+        m = gen_smuggle(rng)
     else:
         m = "".join(gen_tree(rng) for _ in range(rng.choice([1, 1, 2])))
     if rng.random() < 0.35:
@@ -355,7 +373,8 @@ def search(ctx, focus=None):
     return {"evaluations": n, "distinct_nontrivial": len(distinct), "failures": failures,
             "rule": "tag soup: trees over HTML5 / SVG / MathML vocabularies (allow-listed and not) x attributes (every kind of on* handler, allow-listed, URI, style, "
                     "namespace) x value/quote styles x text/reference/comment/declaration/CDATA/PI children x {well-nested, unclosed, self-closed, mismatched} x "
-                    "damage (truncation, inserted <, <!--, ]]>, quotes, NUL, deleted/moved spans) + %d literal attack seeds; direct sanitize_html (both types) and "
+                    "damage (truncation, inserted <, <!--, ]]>, quotes, NUL, deleted/moved spans) + dangerous payloads wrapped in every non-element construct (comments, declarations, "
+                    "marked sections with each keyword, PIs; terminated / mis-terminated / unterminated, with early terminators) + %d literal attack seeds; direct sanitize_html (both types) and "
                     "via parse() in 9 embeddings (escaped, CDATA, base64, inline XHTML, title/subtitle/rights, JSON content_html) x both back ends; the output is "
                     "tokenized by an independent HTML5 tokenizer on its own and inside 3 surrounding contexts (div, paragraph flow, svg); every start tag / attribute must be on the frozen "
                     "reference allow-lists; finding key = (kind of the emitted piece the offending token starts in, element|attribute)" % len(SEEDS),
@@ -372,7 +391,7 @@ def replay(w):
 
 TECHNIQUE = "Lean 4 proof: for every allow-list table and every callback sequence the sanitizer filter emits only allow-listed tags/attributes with escaped values; allow-list table theorems on regenerated tables; per-callback correspondence with the real HTMLSanitizer; HTML5-tokenizer oracle search"
 LEVEL_TEXT = ("Kernel-checked on M-san: san_pieces_safe (for EVERY table, callback sequence and state: each emitted tag piece has an allow-listed element and "
-              "allow-listed attributes for its class with values free of <, >, \"), escapeAttr_ok, script_text_dropped, text_suppressed, pi_decl_dropped, "
+              "allow-listed attributes for its class with values free of <, >, \"), escapeAttr_ok, script_text_dropped, text_suppressed, pi_decl_dropped (processing instructions, declarations and marked sections emit nothing in any state), "
               "shipped_pieces_safe (instantiated with the regenerated tables); table theorems no_dangerous_elements, no_event_handler_attributes, "
               "unacceptable_disjoint, allowlists_subset_reference re-proved on every run. Tie: the model is stepped on the callback sequence sgmllib delivers to "
               "the real sanitizer and must reproduce every emitted piece and the three counters.")
